@@ -12,6 +12,7 @@ import (
 	"go/types"
 	"sort"
 	"strings"
+	"unicode"
 
 	"golang.org/x/tools/go/ssa"
 )
@@ -225,6 +226,24 @@ func evalVal(v ssa.Value, env map[ssa.Value]constant.Value, depth int) (constant
 			// sentinel is ever substituted
 			if constant.Sign(a) == 0 {
 				return constant.MakeBool(false), true
+			}
+			// the documented classes of package unicode, evaluated for the constant
+			if i, exact := constant.Int64Val(a); exact && i > 0 && i <= unicode.MaxRune {
+				c := rune(i)
+				switch cal.String() {
+				case "unicode.IsLetter":
+					return constant.MakeBool(unicode.IsLetter(c)), true
+				case "unicode.IsDigit":
+					return constant.MakeBool(unicode.IsDigit(c)), true
+				case "unicode.IsSpace":
+					return constant.MakeBool(unicode.IsSpace(c)), true
+				case "unicode.IsUpper":
+					return constant.MakeBool(unicode.IsUpper(c)), true
+				case "unicode.IsLower":
+					return constant.MakeBool(unicode.IsLower(c)), true
+				case "unicode.IsPunct":
+					return constant.MakeBool(unicode.IsPunct(c)), true
+				}
 			}
 			return nil, false
 		}
